@@ -324,7 +324,8 @@ func transform(text, tr string) string {
 // re-layout cannot legitimately change which error is met first)
 func lateCode(c int) bool {
 	switch {
-	case c >= 1100 && c < 1400, c == 617, c == 618, c == 204, c >= 602 && c <= 616, c >= 700 && c < 710:
+	// (604 invalid rule value and 605 zero precision are raised while the rule is being read)
+	case c >= 1100 && c < 1400, c == 617, c == 618, c == 204, c >= 602 && c <= 616 && c != 604 && c != 605, c >= 700 && c < 710:
 		return true
 	}
 	return false
